@@ -29,6 +29,14 @@ pub struct Runner {
     pub policy_limit: Option<u64>,
     pub extra: String,
     pub cap_reported: bool,
+    pub last_written_len: u64,
+    pub prev_drift: i128,
+    pub prev_keys: std::collections::HashMap<Vec<u8>, u64>,
+    pub last_req: Option<(wire::ReqHdr, wire::Cmd, u16, bool)>,
+    pub replaying: bool,
+    pub drift_hist: BTreeMap<String, u64>,
+    pub evictions: u64,
+    pub trace: Option<std::fs::File>,
     pub panics_seen: u64,
 }
 
@@ -67,6 +75,14 @@ impl Runner {
             policy_limit: None,
             extra: String::new(),
             cap_reported: false,
+            last_written_len: 0,
+            prev_drift: 0,
+            prev_keys: Default::default(),
+            last_req: None,
+            replaying: false,
+            drift_hist: BTreeMap::new(),
+            evictions: 0,
+            trace: None,
             panics_seen: 0,
         }
     }
@@ -90,11 +106,18 @@ impl Runner {
 
     /// execute one op line on the real code; returns the implementation's output line
     pub fn exec(&mut self, line: &str) -> String {
+        // every line is on disk before it runs: if the implementation hangs, the last line is the culprit
+        if let Some(f) = &mut self.trace {
+            use std::io::Write;
+            let _ = writeln!(f, "{}", line);
+            let _ = f.flush();
+        }
         let lineno = self.ops.len();
         let parts: Vec<&str> = line.split(' ').collect();
         let out = match parts.as_slice() {
             ["new", l] => {
                 self.end_program();
+                self.policy_limit = None;
                 self.limit = l.parse().unwrap();
                 self.sut = Sut::new(self.limit, self.policy_limit);
                 self.oracle = Oracle::new();
@@ -103,6 +126,26 @@ impl Runner {
                 self.cap_reported = false;
                 "ok".to_string()
             }
+            ["newp", l, m] => {
+                self.end_program();
+                self.limit = l.parse().unwrap();
+                let mem: u64 = m.parse().unwrap();
+                self.policy_limit = Some(mem);
+                self.sut = Sut::new(self.limit, self.policy_limit);
+                self.oracle = Oracle::new();
+                self.now = 0;
+                self.prog_start.push(lineno);
+                self.cap_reported = false;
+                self.last_written_len = 0;
+                self.prev_drift = 0;
+                self.prev_keys.clear();
+                self.last_req = None;
+                "ok".to_string()
+            }
+            [e, ..] if *e == "evict" => {
+                // victim lines are regenerated from what the implementation does now
+                return "ok".to_string();
+            }
             ["now", t] => {
                 self.now = t.parse().unwrap();
                 self.sut.set_now(self.now);
@@ -110,14 +153,32 @@ impl Runner {
             }
             ["req", hx] => {
                 let b = wire::unhex(hx).unwrap();
-                let out = self.sut.req(&b);
-                self.judge(lineno, &b, &out);
-                out
+                if self.policy_limit.is_some() {
+                    self.sut.take_log();
+                    let out = self.sut.req(&b);
+                    let log = self.sut.take_log();
+                    let victims: Vec<String> = log.iter().filter_map(|e| if let crate::sut::RecEv::Evicted(k, _) = e { Some(wire::hexd(k)) } else { None }).collect();
+                    self.evictions += victims.len() as u64;
+                    // the victims the implementation chose are an input of the model
+                    self.ops.push(if victims.is_empty() { "evict".to_string() } else { format!("evict {}", victims.join(" ")) });
+                    self.outs.push("ok".to_string());
+                    self.judge_policy_req(&b, &out, &log);
+                    out
+                } else {
+                    let out = self.sut.req(&b);
+                    self.judge(lineno, &b, &out);
+                    out
+                }
             }
             ["dump"] => {
                 let recs = self.sut.records();
-                self.oracle.final_dump(lineno, self.now, &recs);
-                self.sut.dump()
+                if let Some(l) = self.policy_limit {
+                    self.judge_policy_dump(self.ops.len(), l, &recs);
+                    format!("{} | usage={} stored={} tape=ok", self.sut.dump(), self.sut.usage(), self.sut.stored_bytes())
+                } else {
+                    self.oracle.final_dump(lineno, self.now, &recs);
+                    self.sut.dump()
+                }
             }
             ["dec", hx] => {
                 let b = wire::unhex(hx).unwrap();
@@ -226,6 +287,94 @@ impl Runner {
         }
     }
 
+    fn judge_policy_req(&mut self, frame: &[u8], out: &str, log: &[crate::sut::RecEv]) {
+        self.requests += 1;
+        let (h, cmd) = match wire::parse_cmd(frame) {
+            Some(x) => x,
+            None => return,
+        };
+        *self.op_hist.entry(format!("{:#04x}", h.opcode)).or_insert(0) += 1;
+        let mut status: u16 = 0xffff;
+        if let Some(rest) = out.strip_prefix("resp ") {
+            let tok = rest.split(' ').next().unwrap();
+            if tok == "silent" {
+                status = if matches!(cmd, wire::Cmd::Get { .. }) { 1 } else { 0 };
+                *self.status_hist.entry("silent".to_string()).or_insert(0) += 1;
+            } else if let Some(b) = wire::unhex(tok) {
+                if let Ok(r) = wire::parse_resp(&b) {
+                    status = r.status;
+                    *self.status_hist.entry(format!("{:#06x}", r.status)).or_insert(0) += 1;
+                    if r.status == 0 && matches!(cmd, wire::Cmd::Get { .. }) {
+                        self.cur_hit = true;
+                    }
+                }
+            }
+        } else if out.starts_with("panic") {
+            self.oracle.violations.push(oracle::Violation { props: vec!["C10"], line: self.ops.len(), msg: format!("request {} : {}", hex(frame), out) });
+        }
+        let set_called = log.iter().any(|e| matches!(e, crate::sut::RecEv::Set(_)));
+        if status == 0 && set_called {
+            self.cur_mut_ok = true;
+        }
+        self.cur_sig.push((h.opcode, status));
+        self.last_req = Some((h, cmd, status, set_called));
+    }
+
+    /// C14 / C15 after every command of a program under RandomPolicy
+    fn judge_policy_dump(&mut self, lineno: usize, limit: u64, recs: &[(Vec<u8>, crate::sut::DumpRec)]) {
+        let stored: u64 = recs.iter().map(|(_, r)| 24 + r.value.len() as u64).sum();
+        let usage = self.sut.usage();
+        let keys: std::collections::HashMap<Vec<u8>, u64> = recs.iter().map(|(k, r)| (k.clone(), 24 + r.value.len() as u64)).collect();
+        let mut class = "none".to_string();
+        if let Some((h, cmd, status, set_called)) = self.last_req.take() {
+            let key: Option<Vec<u8>> = match &cmd {
+                wire::Cmd::Get { key, .. } | wire::Cmd::Store { key, .. } | wire::Cmd::Concat { key, .. } | wire::Cmd::Delta { key, .. } | wire::Cmd::Delete { key, .. } => Some(key.clone()),
+                _ => None,
+            };
+            let existed = key.as_ref().map_or(false, |k| self.prev_keys.contains_key(k));
+            let name = match &cmd {
+                wire::Cmd::Get { .. } => "get",
+                wire::Cmd::Store { kind, .. } => match *kind { wire::op::SET => "set", wire::op::ADD => "add", _ => "replace" },
+                wire::Cmd::Concat { append, .. } => if *append { "append" } else { "prepend" },
+                wire::Cmd::Delta { incr, .. } => if *incr { "incr" } else { "decr" },
+                wire::Cmd::Delete { .. } => "delete",
+                wire::Cmd::Flush { .. } => "flush",
+                _ => "other",
+            };
+            let now_present = key.as_ref().map_or(false, |k| keys.contains_key(k));
+            class = if set_called && status == 0 {
+                if existed { format!("{}-overwrite", name) } else { format!("{}-fresh", name) }
+            } else if set_called {
+                format!("{}-rejected", name)
+            } else if existed && !now_present && name != "delete" {
+                format!("{}-collects-expired", name)
+            } else {
+                name.to_string()
+            };
+            // C14: the record being written is never the victim
+            if set_called && status == 0 {
+                if let Some(k) = &key {
+                    match keys.get(k) {
+                        Some(l) => self.last_written_len = *l,
+                        None => self.oracle.violations.push(oracle::Violation { props: vec!["C14"], line: lineno, msg: format!("opcode {:#x} on key {} was acknowledged but the record is not stored afterwards (evicted while being written?)", h.opcode, wire::kx(k)) }),
+                    }
+                }
+            }
+        }
+        // C14: stored bytes within limit + the record just written
+        if stored > limit + self.last_written_len {
+            self.oracle.violations.push(oracle::Violation { props: vec!["C14"], line: lineno, msg: format!("{} bytes stored under a memory limit of {} (last record written: {} bytes) after {}", stored, limit, self.last_written_len, class) });
+        }
+        // C15: accounting tracks content
+        let drift = usage as i128 - stored as i128;
+        if drift != self.prev_drift && drift != 0 {
+            *self.drift_hist.entry(class.clone()).or_insert(0) += 1;
+            self.oracle.violations.push(oracle::Violation { props: vec!["C15"], line: lineno, msg: format!("accounting drift class={} : accounted usage {} vs {} bytes stored (difference {} -> {})", class, usage, stored, self.prev_drift, drift) });
+        }
+        self.prev_drift = drift;
+        self.prev_keys = keys;
+    }
+
     pub fn finish(&mut self) {
         self.end_program();
     }
@@ -268,6 +417,46 @@ impl Runner {
             }
             if profile == "C19" {
                 self.twin(&mut rng);
+            }
+        }
+        self.finish();
+    }
+
+    /// programs under RandomPolicy: `pressure` = memory limits around the size of a few records (C14),
+    /// otherwise limits far above the live set (C15)
+    pub fn generate_policy(&mut self, profile: &str, seed: u64, count: u64) {
+        let p = gen::profile(profile);
+        let mut master = Rng::new(seed ^ 0x9011c4);
+        for _ in 0..count {
+            let mut rng = master.fork();
+            let mem: u64 = if profile == "C14" { *rng.pick(&[10u64, 40, 60, 100, 100, 150, 250, 400, 1000]) } else { *rng.pick(&[2000u64, 5000, 20000]) };
+            self.exec(&format!("newp 4096 {}", mem));
+            let mut g = GenState::new(&mut rng, &p, if profile == "C14" { 400 } else { 300 });
+            let n = rng.range(p.len.0, p.len.1);
+            for _ in 0..n {
+                match g.next_op(&mut rng, &p) {
+                    GenOp::Now(t) => {
+                        self.exec(&format!("now {}", t));
+                    }
+                    GenOp::Req(b) => {
+                        let out = self.exec(&format!("req {}", hex(&b)));
+                        self.exec("dump");
+                        if let Some(rest) = out.strip_prefix("resp ") {
+                            let tok = rest.split(' ').next().unwrap();
+                            if tok != "silent" {
+                                if let (Some(bytes), Some(h)) = (wire::unhex(tok), wire::parse_req_hdr(&b)) {
+                                    if let Ok(r) = wire::parse_resp(&bytes) {
+                                        let el = h.extras_len as usize;
+                                        let kl = h.key_len as usize;
+                                        if r.status == 0 && b.len() >= 24 + el + kl && kl > 0 {
+                                            g.note_cas(&b[24 + el..24 + el + kl], r.cas);
+                                        }
+                                    }
+                                }
+                            }
+                        }
+                    }
+                }
             }
         }
         self.finish();
